@@ -193,10 +193,10 @@ func runV(f string, a map[string]string) vRec {
 var netEntries = []string{
 	"pkg/blockchain.Block", "pkg/blockchain.RawBlock", "pkg/blockchain.BlockHeader", "pkg/blockchain.Transaction", "pkg/blockchain.BlockAsset",
 	"pkg/blockchain.AggregateCommit", "pkg/consensus/certificate.SingleCommit", "pkg/consensus/certificate.Certificate",
-	"pkg/p2p.Message", "pkg/p2p.RequestMsg", "pkg/p2p.responseMsg",
+	"pkg/p2p.Message", "pkg/p2p.Request", "pkg/p2p.responseMsg",
 	"pkg/consensus/sync.getBlocksFromIDRequest", "pkg/consensus/sync.getBlocksFromIDResponse",
 	"pkg/consensus/sync.getHighestCommonBlockRequest", "pkg/consensus/sync.getHighestCommonBlockResponse",
-	"pkg/consensus.EventPostBlock", "pkg/consensus.EventPostSingleCommits", "pkg/consensus.PostTransactionsAnnouncementEvent",
+	"pkg/consensus.EventPostBlock", "pkg/consensus.EventPostSingleCommits", "pkg/txpool.GetTransactionsResponse", "pkg/consensus/sync.GetBlocksFromIDRequest", "pkg/consensus/sync.GetBlocksFromIDResponse", "pkg/consensus/sync.GetHighestCommonBlockRequest", "pkg/consensus/sync.GetHighestCommonBlockResponse", "pkg/consensus/sync.NodeInfo",
 	"pkg/trie/smt.Proof", "pkg/trie/rmt.Proof",
 }
 
